@@ -59,6 +59,18 @@ RANK_DOMAIN = {
 }
 
 
+def ranks_of(ctx: Ctx) -> tuple[int, ...]:
+    return (1, 2, 3, 4) if ctx.tier == "thorough" else (1, 2, 3)
+
+
+def arities_of(ctx: Ctx) -> tuple[int, ...]:
+    return (1, 2, 3, 4) if ctx.tier == "thorough" else (1, 2, 3)
+
+
+def orders_of(ctx: Ctx) -> tuple[int, ...]:
+    return (1, 2, 3) if ctx.tier == "thorough" else (1, 2)
+
+
 def _where(fi: FuncInfo | None, c: ClassInfo) -> str:
     return fi.loc if fi is not None else c.loc
 
@@ -81,7 +93,7 @@ def _param_op_configs(ctx: Ctx, c: ClassInfo) -> Iterator[tuple[str, dict[str, V
     shape_params = [n for n in names if "shape" in n and n != "in_shapes"]
     if not shape_params:
         return
-    for r in RANK_DOMAIN.get(c.name, (1, 2, 3)):
+    for r in RANK_DOMAIN.get(c.name, ranks_of(ctx)):
         base: dict[str, V] = {"num_folds": IntV(F)}
         for i, n in enumerate(shape_params):
             base[n] = TupleV(tuple(IntV(Dim.sym(f"{'abcd'[i]}{k}")) for k in range(r)))
@@ -89,7 +101,7 @@ def _param_op_configs(ctx: Ctx, c: ClassInfo) -> Iterator[tuple[str, dict[str, V
         if "dim" in names:
             variants = [(f"rank={r},dim={d}", {"dim": mkint(d)}) for d in list(range(r)) + [-1]]
         if "order" in names:
-            variants = [(f"{t},order={o}", {**kv, "order": mkint(o)}) for t, kv in variants for o in (1, 2)]
+            variants = [(f"{t},order={o}", {**kv, "order": mkint(o)}) for t, kv in variants for o in orders_of(ctx)]
         if "indices" in names:
             variants = [(t, {**kv, "indices": TupleV((mkint(0), mkint(0)), "list")}) for t, kv in variants]
         if "vmin" in names:
@@ -274,7 +286,7 @@ def _candidates(ctx: Ctx, c: ClassInfo, pname: str, ann: str, st_factory: Any) -
     """abstract candidates for one constructor parameter: (tag, factory(st) -> V)"""
     a = ann.replace(" ", "")
     if pname == "arity":
-        return [(f"arity={h}", lambda st, h=h: mkint(h)) for h in (1, 2, 3)]
+        return [(f"arity={h}", lambda st, h=h: mkint(h)) for h in arities_of(ctx)]
     if pname == "num_input_units":
         return [("", lambda st: IntV(KI))]
     if pname == "num_output_units":
